@@ -1709,6 +1709,7 @@ pub fn run(cfg: &Cfg) -> Report {
       rep.case(text, *n_comments > 0);
       rep.hit(&format!("gap:{}-comments", n_comments));
       let len = text.chars().count();
+      crate::util::note_case(text);
       let toks = guarded(|| dmntk_feel_parser::verif::tokenize(&s0, dmntk_feel_parser::VerifTokenType::StartExpression, text, (false, false, false, false), 2));
       let first_end = match &toks {
         Ok(ts) if ts.len() == 2 => ts[1].2,
